@@ -26,7 +26,9 @@ TCb == /\ IsEvent("cb")
           \/ E.kind = "shutdown" /\ old = E.g /\ OldShutdownCb
           \/ E.kind = "restartfailed" /\ old = E.g /\ RestartFailedCb
 
-TSetup == IsEvent("setup") /\ g = E.g /\ Directives
+TSetup == IsEvent("setup") /\ g = E.g /\ op.f # "parse" /\ Directives
+\* a Casketfile that does not parse: the load fails before any setup function runs (nothing is logged)
+TParseFail == pc = "dirs" /\ op.f = "parse" /\ Directives /\ UNCHANGED l
 
 TListen == /\ IsEvent("listen") /\ pc = "listen" /\ g = E.g /\ k = E.k /\ ~Inherits(k)
            /\ (E.res = "err") = (op.f = "listen")
@@ -80,7 +82,7 @@ TReset == /\ IsEvent("reset")
           /\ held' = {}
           /\ att' = [x \in Gens |-> [calls |-> 0, failed |-> 0]]
 
-TNext == TCall \/ TCb \/ TSetup \/ TListen \/ TInherit \/ TStop \/ TStopped \/ TRet \/ TServeBegin \/ TServeEnd
+TNext == TCall \/ TCb \/ TSetup \/ TParseFail \/ TListen \/ TInherit \/ TStop \/ TStopped \/ TRet \/ TServeBegin \/ TServeEnd
          \/ TSpEnd \/ TWaitCall \/ TWaitRet \/ TReset
 TSpec == TInit /\ [][TNext]_tvars
 
